@@ -480,7 +480,7 @@ func main() {
 		}
 		rnd := hx.NewRand(ctx.Seed)
 		// 24 chains in the thorough tier: the race detector's own memory grows by about 250 MB per chain and is never
-		// returned (Go heap stays below 0.5 GB); 40 chains peaked above 9 GB resident
+		// returned (Go heap stays below 0.5 GB); 40 chains peaked above 9 GB resident, 28 at 8.3 GB
 		chains := ctx.Scale(4, 24)
 		for i := 0; i < chains; i++ {
 			// epoch lengths 2..8, 3..7 validators; the first four chains fix the corners
